@@ -717,7 +717,8 @@ fn pick_cfg(rng: &mut Rng, prev: Option<Cfg>, kind: Kind) -> Cfg {
         let (k, r, sb) = match prev {
             Some((k, r, sb)) if rng.below(2) == 0 => { let c: Vec<usize> = HSIZES.iter().copied().filter(|s| s.div_ceil(64) == sb.div_ceil(64) && *s != sb).collect();
                 (k, r, if c.is_empty() { sb } else { c[rng.below(c.len())] }) }
-            _ => { let (k, r) = match rng.below(8) { 0..=3 => HCOUNTS[rng.below(HCOUNTS.len())], 4..=6 => (1 + rng.below(12), 1 + rng.below(12)), _ => (1 + rng.below(40), 1 + rng.below(40)) };
+            _ => { let (k, r) = match rng.below(10) { 0..=3 => HCOUNTS[rng.below(HCOUNTS.len())], 4..=6 => (1 + rng.below(12), 1 + rng.below(12)), 7 => (1 + rng.below(40), 1 + rng.below(40)),
+                    8 => (33 + rng.below(100), 1 + rng.below(16)), _ => (1 + rng.below(16), 33 + rng.below(100)) };   // many on one side, few on the other: bitmap blocks that are not aligned with the region
                 (k, r, HSIZES[rng.below(HSIZES.len())]) } };
         if codec_ok(kind_codec(kind), k, r) { return (k, r, sb); }
     }
@@ -782,9 +783,10 @@ fn dec_round(rng: &mut Rng, log: &mut Vec<String>, obj: &mut Dec, kind: Kind, cf
     let data = rand_data_z(rng, k, sb);
     let rec = enc_with(kind_codec(kind), NoSimd::new(), k, r, &data).map_err(|e| format!("reference encode {:?}", e))?;
     // a random sufficient subset in random order, the top indexes likely among it
-    let lo = k.saturating_sub(r); let go = match rng.below(6) { 0 => k, 1 => lo, _ => lo + rng.below(k - lo + 1) };
+    let lo = k.saturating_sub(r); let sparse = rng.below(6) == 0;    // sparse: one or two originals missing, every other shard (all recovery too) given
+    let go = if sparse { k - (1 + rng.below(2)).min(k - lo) } else { match rng.below(6) { 0 => k, 1 => lo, _ => lo + rng.below(k - lo + 1) } };
     let go = if o.top { go.max(1) } else { go };
-    let need = k - go; let gr = if rng.below(2) == 0 { need } else { need + rng.below(r - need + 1) }; let gr = if o.top { gr.max(1) } else { gr };
+    let need = k - go; let gr = if sparse { r } else if rng.below(2) == 0 { need } else { need + rng.below(r - need + 1) }; let gr = if o.top { gr.max(1) } else { gr };
     let mut oi: Vec<usize> = (0..k).collect(); shuffle(rng, &mut oi); let mut ri: Vec<usize> = (0..r).collect(); shuffle(rng, &mut ri);
     if o.top || rng.below(2) == 0 { let p = oi.iter().position(|&i| i == k - 1).unwrap(); oi.swap(0, p); }
     if o.top || rng.below(2) == 0 { let p = ri.iter().position(|&j| j == r - 1).unwrap(); ri.swap(0, p); }
